@@ -120,6 +120,17 @@ def check_dispatch_and_consumption(rep, prog):
                                  where, e.data[0]), node=e.node)
 
 
+def callout_walk_loops(I):
+    """the while loop(s) that construct one Callout per iteration - wherever they live (getCallouts or a helper of it)"""
+    out = []
+    for e in I.events:
+        if e.kind == "new" and e.data[0] == "pel.peltool.src.Callout":
+            for L in e.loops:
+                if L.kind == "while" and L not in out and "Callout.__init__" not in L.func:
+                    out.append(L)
+    return out
+
+
 ZERO_LEN_OK = (0x4548, 0x4D54, 0x4C50)
 
 
@@ -162,7 +173,7 @@ def check_src_consumption(rep, I, st, where):
               where, "SRC.toJSON stream reads",
               "SRC body consumption is %r: expected 72 bytes plus the callout subsection exactly when header flag 0x01 is set" % (got,))
     # the callout loop: guard compares 4*wordLength with a counter that advances by callout.flattenedSize()
-    loops = [L for L in I.loops.values() if L.func.endswith("SRC.getCallouts") and L.kind == "while"]
+    loops = callout_walk_loops(I)
     if not loops:
         rep.fail("C01.R4.consumption", where, "getCallouts", "callout subsection is not walked by a length-bounded loop")
         return
@@ -276,7 +287,7 @@ def check_getcallouts_progress(rep, prog):
     cfg = I.new("pel.peltool.config.Config")
     out = I.x_collections_OrderedDict([], {}, None)
     I.method(src, "getCallouts", [out, cfg])
-    loops = [L for L in I.loops.values() if L.func.endswith("SRC.getCallouts") and L.kind == "while"]
+    loops = callout_walk_loops(I)
     if not loops:
         raise AnalysisError("getCallouts walk loop not found")
     L = loops[0]
